@@ -20,6 +20,23 @@ CHECKS = {
    note=COMMON_NOTE + "Domain: eb >= 1, non-empty URIs, payload < 2^32, lengths < 2^53 (float ceil exact). Merge preservation is shown by "
         "correspondence + Cache.check on merged files, not yet by a theorem.",
    technique="Lean 4 proof (induction over slots, omega arithmetic) + model/implementation correspondence"),
+ "C12": dict(
+   text="Lean theorems C12_record / C12_record_checks (record = version 1, policy bytes, twelve 0xFF, vendor and class UUID, 0xFF padding, at the given "
+        "address and nowhere else; for every SHA-1 function, name, address, size), C12_policy_table, C12_merge / C12_merge_checks (merged file = area with every "
+        "input byte at its address and 0xFF elsewhere, followed by the digest of the area, for every digest function), C12_reject_outside, C12_reject_overlap, "
+        "C12_merge_keeps. Tie: cmd_mpi.main run on all 12 policies x names x addresses and on merges of up to 8 records inside/border/outside/overlapping; "
+        "hex files read back with the verifier's reader and compared with the model image; Mpi.checkRecord / checkMerge evaluated on the real files.",
+   design="4 C12",
+   note=COMMON_NOTE + "Domain: size >= 48. The third-party intelhex writer is not modelled (files are read back with IHex.read); hashlib vs. Lean SHA compared through every case.",
+   technique="Lean 4 proof (model => executable spec predicate, for all hash functions) + model/implementation correspondence"),
+ "C16": dict(
+   text="Lean theorems C16_record (length 16+8n; little-endian fields read back as magic 0x55AA55AA, 1, partition address, size; zero cache entries; for all values below 2^32), "
+        "C16_record_rejects, C16_storage_image, C16_dfu_image (address dfu+i holds byte i, nothing else defined), C16_storage_checks / C16_dfu_checks (model => Spec predicate). "
+        "Tie: cmd_image.main(image=update) on a grid of sizes x addresses (64 KiB, 16 MiB, 2^32 boundaries) x cache counts; both hex files are read back with the "
+        "verifier's Intel-HEX reader, compared with the model image, and judged by Update.checkStorage / checkDfu.",
+   design="4 C16",
+   note=COMMON_NOTE + "Domain: address + size within 32 bits. The intelhex writer's extended-address arithmetic is not proved; it is checked per file by the verifier's strict reader.",
+   technique="Lean 4 proof (byte-level layout lemmas, omega) + model/implementation correspondence"),
 }
 
 NA_REASON = "check not yet built in this revision (work in progress; DESIGN.md section 4 describes the planned model and theorems)"
